@@ -160,6 +160,8 @@ def chunk_plan(rng, physical, n_entries, nested, exotic=True):
     encs = _encodings_for(physical)
     if not exotic:
         encs = [e for e in encs if e in ("PLAIN", "PLAIN_DICTIONARY", "RLE_DICTIONARY", "RLE", "DELTA_BINARY_PACKED")]
+        if physical == "BOOLEAN":
+            encs = [e for e in encs if e in ("PLAIN", "RLE")]
     pages = []
     npages = rng.choice([1, 1, 2, 3, 5])
     fallback_after = rng.randrange(0, npages + 1) if rng.random() < 0.3 else None
